@@ -227,6 +227,36 @@ static void do_dec1(char* line) {
     ob_printf(" EMPTYCB=%s:%zu:%zu", status_s(r0.status), r0.read, r0.required);
   if (a_requests) ob_printf(" ALLOCS=%lu", a_requests);
   free(ev);
+  /* the library's own do-nothing table (callbacks.c: cbor_empty_callbacks = the cbor_null_*_callback functions):
+   * same status / read / required as with the recording table; neither the context, nor the input, nor the
+   * allocator is touched */
+  {
+    static int table_checked;
+    if (!table_checked) {
+      table_checked = 1;
+      const struct cbor_callbacks* e = &cbor_empty_callbacks;
+      if (e->uint8 != cbor_null_uint8_callback || e->uint16 != cbor_null_uint16_callback || e->uint32 != cbor_null_uint32_callback ||
+          e->uint64 != cbor_null_uint64_callback || e->negint8 != cbor_null_negint8_callback || e->negint16 != cbor_null_negint16_callback ||
+          e->negint32 != cbor_null_negint32_callback || e->negint64 != cbor_null_negint64_callback ||
+          e->byte_string_start != cbor_null_byte_string_start_callback || e->byte_string != cbor_null_byte_string_callback ||
+          e->string != cbor_null_string_callback || e->string_start != cbor_null_string_start_callback ||
+          e->indef_array_start != cbor_null_indef_array_start_callback || e->array_start != cbor_null_array_start_callback ||
+          e->indef_map_start != cbor_null_indef_map_start_callback || e->map_start != cbor_null_map_start_callback ||
+          e->tag != cbor_null_tag_callback || e->float2 != cbor_null_float2_callback || e->float4 != cbor_null_float4_callback ||
+          e->float8 != cbor_null_float8_callback || e->undefined != cbor_null_undefined_callback || e->null != cbor_null_null_callback ||
+          e->boolean != cbor_null_boolean_callback || e->indef_break != cbor_null_indef_break_callback)
+        ob_printf(" EMPTYCB-TABLE");
+    }
+    unsigned char ctx[64]; memset(ctx, 0xC7, sizeof ctx);
+    unsigned char* copy = malloc(n ? n : 1); memcpy(copy, buf, n);
+    unsigned long before = a_requests;
+    struct cbor_decoder_result r2 = cbor_stream_decode(buf, n, &cbor_empty_callbacks, ctx);
+    bool touched = a_requests != before || memcmp(copy, buf, n) != 0;
+    for (size_t i = 0; i < sizeof ctx; i++) if (ctx[i] != 0xC7) touched = true;
+    if (r2.status != r.status || r2.read != r.read || r2.required != r.required) ob_printf(" EMPTYCB=%s:%zu:%zu", status_s(r2.status), r2.read, r2.required);
+    if (touched) ob_printf(" EMPTYCB-TOUCHED");
+    free(copy);
+  }
   free_al(buf);
 }
 
@@ -1053,9 +1083,14 @@ int main(int argc, char** argv) {
   const char* stream = argv[1];
   hx_devnull = fopen("/dev/null", "w");
   if (!strcmp(stream, "config")) {
-    printf("CBOR_MAX_STACK_SIZE=%d CBOR_BUFFER_GROWTH=%d sizeof_item=%zu sizeof_ptr=%zu sizeof_pair=%zu sizeof_isd=%zu sizeof_rec=%zu\n",
+    /* version constants: the three static consts of common.h, the CBOR_VERSION string and CBOR_HEX_VERSION must tell the same story */
+    char vs[64]; snprintf(vs, sizeof vs, "%u.%u.%u", (unsigned)cbor_major_version, (unsigned)cbor_minor_version, (unsigned)cbor_patch_version);
+    unsigned long hexv = ((unsigned long)cbor_major_version << 16) | ((unsigned long)cbor_minor_version << 8) | (unsigned long)cbor_patch_version;
+    int version_ok = !strcmp(vs, CBOR_VERSION) && hexv == (unsigned long)CBOR_HEX_VERSION &&
+                     cbor_major_version == CBOR_MAJOR_VERSION && cbor_minor_version == CBOR_MINOR_VERSION && cbor_patch_version == CBOR_PATCH_VERSION;
+    printf("CBOR_MAX_STACK_SIZE=%d CBOR_BUFFER_GROWTH=%d sizeof_item=%zu sizeof_ptr=%zu sizeof_pair=%zu sizeof_isd=%zu sizeof_rec=%zu version=%s hex_version=%lu version_ok=%d\n",
            (int)CBOR_MAX_STACK_SIZE, (int)CBOR_BUFFER_GROWTH, sizeof(cbor_item_t), sizeof(cbor_item_t*),
-           sizeof(struct cbor_pair), sizeof(struct cbor_indefinite_string_data), sizeof(struct _cbor_stack_record));
+           sizeof(struct cbor_pair), sizeof(struct cbor_indefinite_string_data), sizeof(struct _cbor_stack_record), CBOR_VERSION, (unsigned long)CBOR_HEX_VERSION, version_ok);
     return 0;
   }
   if ((!strcmp(stream, "load") || !strcmp(stream, "rt") || !strcmp(stream, "loadpost") || !strcmp(stream, "depth") || !strcmp(stream, "seq") || !strcmp(stream, "bigsuffix")) && argc >= 4) {
